@@ -223,3 +223,10 @@ def rules(t, *a, **kw):
     out = _rules_C15_w5d(t, *a, **kw)
     out.append(W5.last_sent_values(t, "C15.m"))
     return out
+
+_rules_C15_w7 = rules
+def rules(t, *a, **kw):
+    import rules.wave7 as W7
+    out = _rules_C15_w7(t, *a, **kw)
+    out.append(W7.ack_collection_total(t, "C15.n"))
+    return out
